@@ -22,10 +22,9 @@ struct AnyData : Impl::Any::Data { AnyData(size_t n, Resolver r, Rejection j) : 
 #define O(name, T, m) printf("#define OFF_%s %zu\n", #name, offsetof(T, m))
 #define S(name, T) printf("#define SIZEOF_%s %zu\n", #name, sizeof(T))
 int main() {
-  O(AllData_total, Impl::All::Data, total); O(AllData_resolved, Impl::All::Data, resolved); O(AllData_rejected, Impl::All::Data, rejected); O(AllData_mtx, Impl::All::Data, mtx);
   O(AllData_resolve, Impl::All::Data, resolve); O(AllData_reject, Impl::All::Data, reject);
   O(AllData2_results, AllData2, results); S(AllData2, AllData2); O(AllData3_results, AllData3, results); S(AllData3, AllData3);
-  O(AnyData_done, Impl::Any::Data, done); O(AnyData_mtx, Impl::Any::Data, mtx); O(AnyData_resolve, Impl::Any::Data, resolve); O(AnyData_reject, Impl::Any::Data, reject); S(AnyData, AnyData);
+  O(AnyData_resolve, Impl::Any::Data, resolve); O(AnyData_reject, Impl::Any::Data, reject); S(AnyData, AnyData);
   { alignas(8) static char b[sizeof(std::tuple<int,int>)]; auto* t = reinterpret_cast<std::tuple<int,int>*>(b); printf("#define OFF_Tuple2_0 %zu\n#define OFF_Tuple2_1 %zu\n", (size_t)((char*)&std::get<0>(*t) - b), (size_t)((char*)&std::get<1>(*t) - b)); }
   { alignas(8) static char b[sizeof(std::tuple<int,int,int>)]; auto* t = reinterpret_cast<std::tuple<int,int,int>*>(b); printf("#define OFF_Tuple3_0 %zu\n#define OFF_Tuple3_1 %zu\n#define OFF_Tuple3_2 %zu\n", (size_t)((char*)&std::get<0>(*t) - b), (size_t)((char*)&std::get<1>(*t) - b), (size_t)((char*)&std::get<2>(*t) - b)); }
   O(Any_core, Any, core_);
